@@ -414,6 +414,20 @@ func (db *DB) insertOrUpdate(s *Schema, o Object, commit bool) (err error) {
 		return
 	}
 
+	// constraints are checked before anything is modified
+	if err = s.ObjectIndex.satisfyAll(o); err != nil {
+		return
+	}
+
+	// writing the object to disk before indexing it, otherwise a failing
+	// write leaves in the index (and in the cache) values which have never
+	// been stored
+	if !s.asyncWritesEnabled() {
+		if err = db.writeObject(o); err != nil {
+			return
+		}
+	}
+
 	if err = s.index(o); err != nil {
 		return
 	}
@@ -429,11 +443,6 @@ func (db *DB) insertOrUpdate(s *Schema, o Object, commit bool) (err error) {
 		// it in a structure for later saving
 		db.asyncw.put(o)
 	} else {
-		// writing the object to disk
-		if err = db.writeObject(o); err != nil {
-			return
-		}
-
 		// commiting schema and index to disk
 		if commit {
 			return db.commit(o)
